@@ -17,6 +17,9 @@ def run_case(c):
         i = {"a": list(a), "b": list(b)}
         R.append(call("determine", dict(i, short=False), lambda: intervals.determine(a, b), words))
         R.append(call("determine", dict(i, short=True), lambda: intervals.determine(a, b, True), nm))
+        # the form chosen by keyword, after the other form has been answered (and the long form again by keyword)
+        R.append(call("determine", dict(i, short=True, kw=True), lambda: intervals.determine(a, b, shorthand=True), nm))
+        R.append(call("determine", dict(i, short=False, kw=True), lambda: intervals.determine(a, b, shorthand=False), words))
         R.append(call("inverse", i, lambda: intervals.from_shorthand(a, intervals.determine(a, b, True)), nm))
     elif k == "sh":
         n, sh = txt(c["n"]), txt(c["sh"])
